@@ -190,8 +190,14 @@ def gen_plan(rng, tier):
         observe = "end"
     else:
         observe = sorted(rng.sample(range(len(ops)), max(1, len(ops) // 4)))
-    return {"sim": NAME, "regime": regime, "style": style, "ops": ops, "fractions": fr,
+    plan = {"sim": NAME, "regime": regime, "style": style, "ops": ops, "fractions": fr,
             "observe": observe, "max_pool": max_pool}
+    g = rng.random()
+    if g < 0.1:
+        plan["gc"] = "disabled"      # environment: no cyclic garbage collection during the run
+    elif g < 0.2:
+        plan["gc"] = "every_op"      # ... or a full collection after every operation
+    return plan
 
 
 def plan_signature(plan):
@@ -393,6 +399,10 @@ def _foreign_activity(backend):
 
 
 def _run(plan):
+    import gc as _gc
+
+    if plan.get("gc") == "disabled":
+        _gc.disable()
     from labella.scale import LinearScale
 
     fr = plan["fractions"]
@@ -423,6 +433,8 @@ def _run(plan):
         stats[k] = stats.get(k, 0) + n
 
     for step, op in enumerate(plan["ops"]):
+        if plan.get("gc") == "every_op":
+            _gc.collect()
         kind = op[0]
         target = None
         if kind not in ("new", "foreign"):
